@@ -60,6 +60,11 @@ def run(ck):
     from ..report import RuleView
     from . import c08
     c08._joined_row(RuleView(ck, {"C08.6": "C04.9"}))
+    ck.clause("C04.10", "no label is scored in two segments of a record: each overlapping sub-run is cut at the index from its own "
+                        "index table (as C15.5)")
+    from . import c15
+    cuts, impls, LS, RS = c15.collect_cuts(RuleView(ck, {}))
+    c15.per_side_cuts(ck, "C04.10", cuts, impls, LS, RS)
 
 
 # ------------------------------------------------------------------------------------------------------------ C04.1
